@@ -239,7 +239,7 @@ def run(ctx):
             if len(covered) != g.n_edges():
                 raise MachineryError("%s: tour covered %d of %d transitions" % (gname, len(covered), g.n_edges()))
             heavy = "codegen" in gname
-            walks = g.random_walks((8 if heavy else 150) if thorough else (2 if heavy else 10), 20 if heavy else 40, ctx.seed + 20)
+            walks = g.random_walks((8 if heavy else 60) if thorough else (2 if heavy else 10), 20 if heavy else 40, ctx.seed + 20)
             for kind, plist in (("tour", paths), ("walk", walks)):
                 for p in plist:
                     scenarios.append({"graph": gname, "kind": kind, "acts": _acts_of(g, p)})
